@@ -16,7 +16,7 @@ func init() {
 		Level: "other",
 		Explanation: "Persistence clauses behind 'piecewise equals whole': R11.1 the interpreter's persistent tables (global frame, universe, package scopes, source/binary package tables, package names, file set) are stored as a whole only by the constructor (SSA stores to fields of Interpreter) and the root frame's slot vector is replaced only by resizeFrame; " +
 			"R11.2 resizeFrame grows the global frame in place: the new vector receives a copy of the old one and only the new tail is zero-initialised; R11.3 a package scope is created only when absent; " +
-			"R11.4 every exported evaluation/compilation entry point reaches the one pipeline (CompileAST or importSrc) and the compile passes are called from nowhere else. Equality of output/global state across cuts is not decided.",
+			"R11.4 every exported evaluation/compilation entry point reaches the one pipeline (CompileAST or importSrc) and the compile passes are called from nowhere else; R11.5 closure values capture a clone of their frame; R11.6 every (re)definition in the global pass gets a fresh symbol and slot; R11.7 the ordering of package variables waits only for variables of the current evaluation; R11.8 the source name is never reset by an anonymous Eval; R11.9 the variables of a multiple-value define are not flagged global. Equality of output/global state across cuts is not decided.",
 		Assumptions: []string{"SSA store sites and the static call graph of package interp", "symbol-level redefinition semantics are not decided"},
 		Run:         runC11,
 	})
